@@ -124,7 +124,14 @@ def run_family(ctx, n_quick=1500, n_thorough=25000):
         d = first_diff(r.obs, model)
         if d:
             dis.append({'case': c, 'detail': f'line {d[0]}: impl `{d[1]}` model `{d[2]}`', 'impl': r.obs[:300], 'model': (model or [])[:300]})
-        for f in oracle(c, r)[:3]:
+        found = oracle(c, r)[:3]
+        for j, (pc, pr) in enumerate(zip(c.get('peers') or [], getattr(r, 'peers', []))):
+            # the other scheduler instances of a `multi` case (same Environment, overlapping class ids): every clause per instance
+            hist['instances sharing an Environment'] += 1
+            for f in oracle(pc, pr)[:2]:
+                f['what'] = f'instance {j + 2} of {len(r.peers) + 1} schedulers in one Environment ({pc["kind"]}): ' + f['what']
+                found.append(f)
+        for f in found:
             f['case'] = c; f['trace'] = r.obs[:300]
             orc.append(f)
         # coincidences: an arrival in the instant of a departure, before / after it, and between out.put() and the loop's bookkeeping
